@@ -50,6 +50,9 @@ func infallibleSink(cc *ssa.CallCommon) bool {
 		if mi, ok := a.(*ssa.MakeInterface); ok {
 			t = mi.X.Type()
 		}
+		if ci, ok := a.(*ssa.ChangeInterface); ok {
+			t = ci.X.Type() // hash.Hash handed on as an io.Writer
+		}
 		s := t.String()
 		if s == "*bytes.Buffer" || s == "*strings.Builder" || s == "hash.Hash" {
 			return true
